@@ -44,6 +44,7 @@ type Frame struct {
 	defers  []deferred
 	call    ssa.Value // register in the caller frame receiving the result (nil for root / defers)
 	variant map[*ssa.BasicBlock]Val
+	unrolled map[*ssa.BasicBlock]int // remaining header visits of an executed (not cut) range loop
 	inlTag  string
 }
 
@@ -122,6 +123,12 @@ func (s *State) clone() *State {
 				nf.variant[k] = v
 			}
 		}
+		if f.unrolled != nil {
+			nf.unrolled = map[*ssa.BasicBlock]int{}
+			for k, v := range f.unrolled {
+				nf.unrolled[k] = v
+			}
+		}
 		n.frames = append(n.frames, &nf)
 	}
 	return n
@@ -187,6 +194,7 @@ type Engine struct {
 	secs     float64
 	sitePos  map[string]string
 	softs    []string
+	poolCall *ssa.Function
 	heapIDs  map[string]int
 	visibilityFrames map[string]bool
 	uncheckedAssumes map[string]bool
@@ -793,7 +801,7 @@ func (e *Engine) step(st *State) (succ []*State, cont bool) {
 		}
 		return e.doReturn(st, rs), false
 	case *ssa.Panic:
-		if e.wantSafe {
+		if e.wantSafe && x.Pos().IsValid() { // compiler-generated panics (range-over-func protocol) carry no position
 			name, where := e.siteName(fr, "panic", x.Pos(), "")
 			e.oblige(st, name, "K1", "explicit panic is unreachable", "false", where, e.safeProps())
 		}
@@ -1003,17 +1011,35 @@ func (e *Engine) gotoBlock(st *State, b *ssa.BasicBlock) []*State {
 	var invs, decs, assumes []*Clause
 	if isRoot && e.con != nil {
 		for _, c := range e.con.Clauses {
-			if c.Loop == li.ordinal && c.Kind == "loop-assume" {
+			if (c.Loop == li.ordinal || c.Loop == -1) && c.Kind == "loop-assume" {
 				assumes = append(assumes, c)
 			}
-			if c.Loop == li.ordinal && c.Kind == "loop-invariant" {
+			if (c.Loop == li.ordinal || c.Loop == -1) && c.Kind == "loop-invariant" {
 				invs = append(invs, c)
 			}
-			if c.Loop == li.ordinal && c.Kind == "loop-decreases" {
+			if (c.Loop == li.ordinal || c.Loop == -1) && c.Kind == "loop-decreases" {
 				decs = append(decs, c)
 			}
 		}
 	}
+	if left, ok := fr.unrolled[b]; ok && li.body[from] && b.Dominates(from) {
+		if left <= 0 {
+			return nil // more iterations than elements: infeasible
+		}
+		fr.unrolled[b] = left - 1
+		return []*State{st}
+	}
+	if !(li.body[from] && b.Dominates(from)) && li.rangeIdx != nil && len(invs) == 0 && len(decs) == 0 {
+		// a range loop over a slice whose length is a known small constant is simply executed
+		if n, ok := e.constOf(st, e.get(st, li.rangeLen).T); ok && n <= 8 {
+			if fr.unrolled == nil {
+				fr.unrolled = map[*ssa.BasicBlock]int{}
+			}
+			fr.unrolled[b] = int(n) + 1
+			return []*State{st}
+		}
+	}
+	invs = e.applicable(st, invs)
 	if li.body[from] && b.Dominates(from) {
 		// back edge: re-establish invariants, check variant, end of path
 		for k, c := range invs {
@@ -1111,4 +1137,40 @@ func (e *Engine) widthOf(v Val) int {
 		return w
 	}
 	return 64
+}
+
+
+// constOf: the term is a bit-vector literal, or the path condition pins it to one.
+func (e *Engine) constOf(st *State, t string) (uint64, bool) {
+	if v, ok := bvConst(t); ok {
+		return v, true
+	}
+	for k := uint64(0); k <= 8; k++ {
+		lit := bvLit(k, 64)
+		if st.facts["(= "+t+" "+lit+")"] || st.facts["(= "+lit+" "+t+")"] {
+			return k, true
+		}
+	}
+	return 0, false
+}
+
+
+// applicable drops optional clauses whose names do not resolve in this function.
+func (e *Engine) applicable(st *State, cls []*Clause) []*Clause {
+	var out []*Clause
+	for _, c := range cls {
+		if !c.Optional {
+			out = append(out, c)
+			continue
+		}
+		nerr, nnote := len(e.specErrors), len(e.notes)
+		sc := st.clone()
+		e.evalSpecBool(sc, e.entry, c.Expr, e.rootEnv(sc, nil))
+		if len(e.specErrors) > nerr {
+			e.specErrors, e.notes = e.specErrors[:nerr], e.notes[:nnote]
+			continue
+		}
+		out = append(out, c)
+	}
+	return out
 }
